@@ -20,6 +20,9 @@ def witem? : Sexp → Option WItem
   | .list [k, er, sup, br] => do
     let id ← k.nat?; let e ← optNat? er; let s ← sup.bool?; let b ← optNat? br
     pure { id := id, enterRaises := e, suppress := s, bindRaises := b }
+  | .list [k, er, sup, br, xr] => do
+    let id ← k.nat?; let e ← optNat? er; let s ← sup.bool?; let b ← optNat? br; let x ← optNat? xr
+    pure { id := id, enterRaises := e, suppress := s, bindRaises := b, exitRaises := x }
   | _ => none
 
 mutual
@@ -42,8 +45,11 @@ partial def block? : Sexp → Option (List Stmt)
   | .list xs => xs.mapM stmt?
   | _ => none
 partial def handler? : Sexp → Option Handler
-  | .list [.atom "any", b] => do pure (.mk none (← block? b))
-  | .list [cs, b] => do pure (.mk (some (← Sexp.listOf? Sexp.nat? cs)) (← block? b))
+  | .list [.atom "any", b] => do pure (.mk none .plain (← block? b))
+  | .list [cs, b] => do pure (.mk (some (← Sexp.listOf? Sexp.nat? cs)) .plain (← block? b))
+  | .list [cs, .list [.atom "tick", i], b] => do pure (.mk (some (← Sexp.listOf? Sexp.nat? cs)) (.tick (← i.nat?)) (← block? b))
+  | .list [cs, .list [.atom "raises", i, c], b] => do
+    pure (.mk (some (← Sexp.listOf? Sexp.nat? cs)) (.raises (← i.nat?) (← c.nat?)) (← block? b))
   | _ => none
 end
 
